@@ -765,10 +765,10 @@ impl Engine for AuthEngine {
         case_strategy()
     }
     fn quick_cases(&self) -> usize {
-        200_000
+        1_000_000
     }
     fn thorough_cases(&self) -> usize {
-        5_000_000
+        30_000_000
     }
     fn run(&self, case: &Self::Case) -> Outcome {
         crate::sim::install_panic_hook();
